@@ -364,6 +364,19 @@ func AllStacks(pkg string) []string {
 }
 
 // Stacks returns the stacks of goroutines that have a frame inside pkg, except parked ones.
+// StacksAll is Stacks including the goroutines that are passing through a hook (free mode: nobody parks there).
+func StacksAll(pkg string) []string {
+	buf := make([]byte, 1<<20)
+	n := runtime.Stack(buf, true)
+	var res []string
+	for _, g := range strings.Split(string(buf[:n]), "\n\n") {
+		if strings.Contains(g, pkg) {
+			res = append(res, g)
+		}
+	}
+	return res
+}
+
 func Stacks(pkg string) []string {
 	buf := make([]byte, 1<<20)
 	n := runtime.Stack(buf, true)
